@@ -163,13 +163,15 @@ CHECKS["C15"] = {
 }
 CHECKS["C18"] = {
     "level": "other",
-    "text": ("Decides: one whole-array stencil x[...,1:] -= coeff*x[...,:-1] on every path (no chunked update that could read "
-             "already-updated samples), torch twin with a prepended zero, dtype recorded first / float64 work / cast back, in-place "
-             "writes only with in_place (flag-sensitive effect analysis), Dither's draw is numpy.random.normal(0, coeff, shape-only) "
-             "from the global generator, added once, with no instance state. Does NOT decide distributional facts."),
-    "design_ref": "DESIGN.md §3 C18",
+    "text": ("Decides: the forward-substituted value returned by Dither.apply / Preemphasize.apply, specialised to every scenario "
+             "(in_place x input dtype float64/float32/int16 x axis none/last/other x rank), is the documented expression - float64 "
+             "working copy unless in_place on float64, x[...,1:] -= coeff*x[...,:-1] along the chosen axis with sample 0 kept, "
+             "numpy.random.normal(0, coeff, shape-only) added once, cast back to the input dtype; no chunked update; torch twins; "
+             "in-place writes only with in_place (flag-sensitive effect analysis); global generator, no instance state. "
+             "Does NOT decide distributional facts."),
+    "design_ref": "DESIGN.md §3 C18, §10.6",
     "note": NOTE_COMMON,
-    "technique": "static analysis: stencil rule, dtype round-trip rule, effect analysis with the in_place flag, provenance of the random draw's arguments, purity",
+    "technique": "static analysis: forward substitution + scenario evaluation of the returned value against the documented closed form, effect analysis with the in_place flag, provenance of the random draw's arguments, purity",
 }
 
 CHECKS["C16"] = {
